@@ -188,6 +188,41 @@ def r3_index_first(chk):
     o, li = ci.find_method('loadIndex')
     ok = common.pmatch(norm(li), 'dict([$x.split()[:2] for $x in $f.readlines()])', full=False) is not None
     chk.ob('C14.R3', 'FileReader.loadIndex/format', ok, where(mod, li), 'index lines are `MIB-NAME file-name`')
+    # guards: the mapping is loaded the first time it is asked for, from the file when the file exists, and returned
+    ld = [s_ for s_ in walk_no_nested(fn) if isinstance(s_, ast.Assign) and norm(s_.targets[0]) == 'self._mibIndex']
+    if ld:
+        gs = _g(ld[0], fn)
+        okg = all(g in (('self.useIndexFile', True), ('not self._indexLoaded', True)) for g in gs)
+        chk.ob('C14.R3', 'FileReader.getMibVariants/index-loaded-on-first-use', okg, where(mod, ld[0]),
+               'the load may depend on useIndexFile and on not having been done, on nothing else (guards %s)' % gs)
+    ini = ci.methods.get('__init__')
+    if ini is not None:
+        st = dict((norm(s_.targets[0]), norm(s_.value)) for s_ in walk_no_nested(ini) if isinstance(s_, ast.Assign))
+        chk.ob('C14.R3', 'FileReader.__init__/index-not-loaded-yet', st.get('self._indexLoaded') == 'False', where(mod, ini),
+               'self._indexLoaded starts as False (found %s)' % st.get('self._indexLoaded'))
+    ip = li.args.args[-1].arg
+    ops = [c for c in walk_no_nested(li) if isinstance(c, ast.Call) and dotted_name(c.func) == 'open']
+    okl = len(ops) == 1 and ops[0].args and norm(ops[0].args[0]) == ip and \
+        _g(ops[0], li) in ([], [('os.path.exists(%s)' % ip, True)], [('os.path.isfile(%s)' % ip, True)])
+    chk.ob('C14.R3', 'FileReader.loadIndex/reads-the-file-when-it-exists', okl, where(mod, ops[0] if ops else li),
+           'open(%s) under no guard but the existence of the file (guards %s)' % (ip, ops and _g(ops[0], li)))
+    rets = [x for x in walk_no_nested(li) if isinstance(x, ast.Return)]
+    tgt = [norm(s_.targets[0]) for s_ in walk_no_nested(li) if isinstance(s_, ast.Assign) and 'readlines()' in norm(s_.value)]
+    chk.ob('C14.R3', 'FileReader.loadIndex/returns-what-it-read', len(rets) == 1 and len(tgt) == 1 and
+           norm(rets[0].value) == tgt[0] and not _g(rets[0], li), where(mod, li), '')
+    ca = dict((norm(s_.targets[0]), norm(s_.value)) for s_ in ci.node.body if isinstance(s_, ast.Assign))
+    chk.ob('C14.R3', 'FileReader/index-used-by-default-under-its-documented-name', ca.get('useIndexFile') == 'True' and
+           ca.get('indexFile') == "'.index'", where(mod, ci.node), 'useIndexFile = True, indexFile = ".index" (found %s, %s)'
+           % (ca.get('useIndexFile'), ca.get('indexFile')))
+    if ini is not None:
+        names = [a_.arg for a_ in ini.args.args]
+        dfl = dict(zip(names[len(names) - len(ini.args.defaults):], [norm(d_) for d_ in ini.args.defaults]))
+        chk.ob('C14.R3', 'FileReader.__init__/sub-directories-searched-by-default', dfl.get('recursive') == 'True',
+               where(mod, ini), 'recursive=True is the documented default (found %s)' % dfl.get('recursive'))
+    sup = [c for c in walk_no_nested(fn) if isinstance(c, ast.Call) and dotted_name(c.func) == 'super']
+    oks = all((not c.args) or [norm(a_) for a_ in c.args] == [ci.node.name, 'self'] for c in sup) and bool(sup)
+    chk.ob('C14.R3', 'FileReader.getMibVariants/generic-variants-of-the-base-class', oks, where(mod, fn),
+           'super(%s, self) expected' % ci.node.name)
 
 
 def r4_fallthrough(chk):
@@ -613,5 +648,283 @@ def r11_wellformedness(chk):
     common.wellformedness(chk, 'C14.R11', rels, floor=20)
 
 
+def _in_handler(n):
+    a = getattr(n, '_parent', None)
+    while a is not None:
+        if isinstance(a, ast.ExceptHandler):
+            return True
+        a = getattr(a, '_parent', None)
+    return False
 
-RULES = [r1_file_reader, r2_variants, r3_index_first, r4_fallthrough, r5_recursion, r6_url_dispatch, r7_stateless_lookups, r8_result_plumbing, r9_argument_agreement, r10_guard_polarity, r11_wellformedness]
+
+def _ancestors(n, stop):
+    a = getattr(n, '_parent', None)
+    while a is not None and a is not stop:
+        yield a
+        a = getattr(a, '_parent', None)
+
+
+def _g(node, fn):
+    from rules import ir
+    return [(norm(t), b) for t, b in ir.guards_of(node, fn)]
+
+
+def r12_zip_directory_and_chain(chk):
+    """ZipReader: how the directory of an archive (and of archives inside it) is read and how a member is fetched
+    back through the chain of enclosing archives - decoded statement by statement with the guards each one sits under"""
+    model = chk.model
+    chk.doc('C14.R12', 'ZipReader._readZipDirectory: archive = ZipFile(<file object>); the object is forgotten only '
+                       'when it is a FileLike (an inner archive is re-read from its parent\'s data); directory entries '
+                       '(empty basename) are skipped and nothing else; a member is an inner archive exactly when its name '
+                       'ends in .zip / .ZIP, in which case its directory is read recursively from FileLike(archive.read('
+                       '<member>)) and each inner name is entered as [[obj, <member>, None]] + <inner chain>, renamed '
+                       'only while it collides; any other member is entered under its basename as [[obj, <member>, '
+                       'mtime]]; the dictionary is returned.  _readZipFile walks the chain in order: a link without a file object is '
+                       'opened from the data of the link before it, each link reads its member from its own archive, a '
+                       'read error ends in ("", 0), the last link\'s data and time are returned')
+    zi = model.cls(ZIP, 'ZipReader')
+    mod = zi.mod
+    wl = []
+    o, fn = zi.find_method('_readZipDirectory')
+    fo = fn.args.args[1].arg
+    asg = [s_ for s_ in walk_no_nested(fn) if isinstance(s_, ast.Assign)]
+    b = common.pfind(asg, '$a = zipfile.ZipFile(%s)' % fo)
+    chk.ob('C14.R12', '_readZipDirectory/opens-the-object-given', b is not None and not _g(
+        [s_ for s_ in asg if common.pmatch(s_, '$a = zipfile.ZipFile(%s)' % fo)][0], fn), where(mod, fn),
+        'archive = zipfile.ZipFile(%s), unconditionally' % fo)
+    if b is None:
+        return
+    ar = b['a']
+    resets = [s_ for s_ in asg if norm(s_.targets[0]) == fo]
+    ok = len(resets) == 1 and norm(resets[0].value) == 'None' and _g(resets[0], fn) == [
+        ('isinstance(%s, FileLike)' % fo, True)]
+    chk.ob('C14.R12', '_readZipDirectory/object-forgotten-only-for-inner-archives', ok, where(mod, resets[0] if resets else fn),
+           'the file object of the outermost archive must stay in its references (guards %s)' %
+           (resets and _g(resets[0], fn)))
+    loops = [n for n in fn.body if isinstance(n, ast.For)]
+    ok = len(loops) == 1 and norm(loops[0].iter) == '%s.infolist()' % ar and isinstance(loops[0].target, ast.Name)
+    chk.ob('C14.R12', '_readZipDirectory/every-member-visited', ok, where(mod, fn), 'for <m> in %s.infolist()' % ar)
+    if not ok:
+        return
+    lp, m = loops[0], loops[0].target.id
+    bn = common.pfind(lp.body, '$f = os.path.basename(%s.filename)' % m)
+    chk.ob('C14.R12', '_readZipDirectory/basename', bn is not None, where(mod, lp), '')
+    if bn is None:
+        return
+    f = bn['f']
+    skip = 'not %s' % f
+    if any(("%s == ''" % f, True) in _g(x, fn) for x in walk_no_nested(lp) if isinstance(x, ast.Continue)):
+        skip = "%s == ''" % f
+    conts = [x for x in walk_no_nested(lp) if isinstance(x, (ast.Continue, ast.Break))]
+    ok = len(conts) == 1 and isinstance(conts[0], ast.Continue) and _g(conts[0], fn) == [(skip, True)]
+    chk.ob('C14.R12', '_readZipDirectory/only-directory-entries-skipped', ok, where(mod, conts[0] if conts else lp),
+           'the one early exit of an iteration is `if not %s: continue`' % f)
+    ZT = ("%s.filename.endswith('.zip') or %s.filename.endswith('.ZIP')" % (m, m),
+          "%s.filename.endswith('.ZIP') or %s.filename.endswith('.zip')" % (m, m),
+          "%s.filename.endswith(('.zip', '.ZIP'))" % m, "%s.filename.lower().endswith('.zip')" % m)
+
+    def arm(node):
+        gs = [g for g in _g(node, fn) if g != (skip, False)]
+        if len(gs) >= 1 and gs[0][0] in ZT:
+            return ('inner' if gs[0][1] else 'plain'), gs[1:]
+        return None, gs
+    rec = [c for c in walk_no_nested(lp) if isinstance(c, ast.Call) and norm(c.func) == 'self.%s' % fn.name]
+    ok = len(rec) == 1 and arm(rec[0])[0] == 'inner' and not arm(rec[0])[1]
+    chk.ob('C14.R12', '_readZipDirectory/inner-archives-are-the-members-named-zip', ok, where(mod, rec[0] if rec else lp),
+           'the recursion must sit directly under the .zip/.ZIP name test (guards %s)' % (rec and _g(rec[0], fn)))
+    if rec:
+        a0 = rec[0].args[0] if rec[0].args else (rec[0].keywords[0].value if rec[0].keywords else None)
+        blob = common.pfind([s_ for s_ in walk_no_nested(lp) if isinstance(s_, ast.Assign)], '$b = %s.read(%s.filename)' % (ar, m))
+        ok = a0 is not None and (
+            (blob is not None and norm(a0) in ('FileLike(%s, %s.filename)' % (blob['b'], m),
+                                               'FileLike(%s, name=%s.filename)' % (blob['b'], m))) or
+            norm(a0) in ('FileLike(%s.read(%s.filename), %s.filename)' % (ar, m, m),))
+        chk.ob('C14.R12', '_readZipDirectory/inner-archive-read-from-its-own-member', ok, where(mod, rec[0]),
+               'the inner directory is read from FileLike(%s.read(%s.filename), %s.filename)' % (ar, m, m))
+    stores = [s_ for s_ in walk_no_nested(lp) if isinstance(s_, ast.Assign) and isinstance(s_.targets[0], ast.Subscript)]
+    msv = set(norm(s_.targets[0].value) for s_ in stores)
+    rets = [x for x in walk_no_nested(fn) if isinstance(x, ast.Return)]
+    ok = len(msv) == 1 and len(rets) == 1 and rets[0].value is not None and norm(rets[0].value) in msv and not _g(rets[0], fn)
+    chk.ob('C14.R12', '_readZipDirectory/returns-the-directory', ok, where(mod, fn), 'stores into %s' % sorted(msv))
+    if len(msv) != 1:
+        return
+    ms = msv.pop()
+    plain = [s_ for s_ in stores if arm(s_)[0] == 'plain']
+    inner = [s_ for s_ in stores if arm(s_)[0] == 'inner']
+    ok = len(plain) == 1 and not arm(plain[0])[1] and norm(plain[0].targets[0].slice) == f and \
+        common.pmatch(plain[0].value, '[[%s, %s.filename, $t]]' % (fo, m)) is not None
+    chk.ob('C14.R12', '_readZipDirectory/plain-member-entered-under-its-basename', ok, where(mod, plain[0] if plain else lp),
+           '%s[%s] = [[%s, %s.filename, <mtime>]] under the negative arm of the name test only' % (ms, f, fo, m))
+    if ok:
+        tv = common.pmatch(plain[0].value, '[[%s, %s.filename, $t]]' % (fo, m))['t']
+        tm = [s_ for s_ in walk_no_nested(lp) if isinstance(s_, ast.Assign) and norm(s_.targets[0]) == tv]
+        ok2 = len(tm) == 1 and '%s.date_time' % m in norm(tm[0].value) and 'time.mktime' in norm(tm[0].value)
+        chk.ob('C14.R12', '_readZipDirectory/time-is-the-member\'s', ok2, where(mod, tm[0] if tm else lp),
+               'mtime must be computed from %s.date_time' % m)
+    il = [n for n in walk_no_nested(lp) if isinstance(n, ast.For) and n is not lp]
+    ok = len(inner) == 1 and len(il) == 1 and isinstance(il[0].target, ast.Tuple) and len(il[0].target.elts) == 2 and \
+        rec and common.stmt_of(rec[0]) is not None
+    chk.ob('C14.R12', '_readZipDirectory/inner-names-loop', bool(ok), where(mod, lp), '')
+    if ok:
+        iname, iref = [e.id for e in il[0].target.elts]
+        rv = common.stmt_of(rec[0])
+        src_ok = isinstance(rv, ast.Assign) and norm(il[0].iter) == '%s.items()' % norm(rv.targets[0])
+        chk.ob('C14.R12', '_readZipDirectory/inner-names-come-from-the-inner-directory', src_ok, where(mod, il[0]), '')
+        st = inner[0]
+        ok3 = norm(st.targets[0].slice) == iname and norm(st.value) == '[[%s, %s.filename, None]]' % (fo, m) and \
+            common._within(st, il[0])
+        ext = [c for c in walk_no_nested(il[0]) if isinstance(c, ast.Call) and norm(c.func) == '%s[%s].extend' % (ms, iname)]
+        ok3 = ok3 and len(ext) == 1 and norm(ext[0].args[0]) == iref and common.stmt_of(ext[0]).lineno > st.lineno and \
+            arm(ext[0]) == ('inner', []) and arm(st) == ('inner', [])
+        chk.ob('C14.R12', '_readZipDirectory/chain = own link, then the inner chain', ok3, where(mod, st),
+               '%s[<inner name>] = [[%s, %s.filename, None]] followed by .extend(<inner chain>), both unconditionally '
+               'inside the loop over the inner directory' % (ms, fo, m))
+        wl = [n for n in walk_no_nested(il[0]) if isinstance(n, ast.While)]
+        ok4 = len(wl) <= 1 and all(norm(w.test) == '%s in %s' % (iname, ms) and len(w.body) == 1 and
+                                   isinstance(w.body[0], ast.AugAssign) and norm(w.body[0].target) == iname and
+                                   not w.orelse and w.lineno < st.lineno for w in wl)
+        renames = [s_ for s_ in walk_no_nested(il[0]) if isinstance(s_, (ast.Assign, ast.AugAssign)) and
+                   norm(s_.targets[0] if isinstance(s_, ast.Assign) else s_.target) == iname]
+        ok4 = ok4 and all(any(common._within(r_, w) for w in wl) for r_ in renames)
+        chk.ob('C14.R12', '_readZipDirectory/inner-name-changed-only-while-it-collides', ok4, where(mod, il[0]),
+               'an inner member keeps its name unless a member of that name is already entered '
+               '(`while %s in %s: %s += ...`)' % (iname, ms, iname))
+    # _readZipFile
+    o, rf = zi.find_method('_readZipFile')
+    refs = rf.args.args[1].arg
+    loops = [n for n in rf.body if isinstance(n, ast.For)]
+    ok = len(loops) == 1 and norm(loops[0].iter) == refs and isinstance(loops[0].target, ast.Tuple) and \
+        len(loops[0].target.elts) == 3 and not loops[0].orelse
+    chk.ob('C14.R12', '_readZipFile/walks-the-chain-in-order', ok, where(mod, rf), 'for obj, member, mtime in %s' % refs)
+    if not ok:
+        return
+    lp = loops[0]
+    lo, lm, lt = [e.id for e in lp.target.elts]
+    asg = [s_ for s_ in walk_no_nested(lp) if isinstance(s_, ast.Assign)]
+    rd = [s_ for s_ in asg if common.pmatch(s_, '$d = $a.read(%s)' % lm)]
+    ok = len(rd) == 1
+    chk.ob('C14.R12', '_readZipFile/reads-the-link\'s-member', ok, where(mod, lp), '<data> = <archive>.read(%s)' % lm)
+    if not ok:
+        return
+    bb = common.pmatch(rd[0], '$d = $a.read(%s)' % lm)
+    dv, av = bb['d'], bb['a']
+    op = [s_ for s_ in asg if norm(s_) == '%s = zipfile.ZipFile(%s)' % (av, lo)]
+    ok = len(op) == 1 and not _g(op[0], rf) and op[0].lineno < rd[0].lineno and not _g(rd[0], rf)
+    chk.ob('C14.R12', '_readZipFile/each-link-opens-its-own-archive', ok, where(mod, op[0] if op else lp),
+           '%s = zipfile.ZipFile(%s) before the read, both unconditional' % (av, lo))
+    sub = [s_ for s_ in asg if norm(s_.targets[0]) == lo]
+    ok = len(sub) == 1 and _g(sub[0], rf) in ([('not %s' % lo, True)], [('%s is None' % lo, True)]) and norm(sub[0].value).startswith('FileLike(%s, ' % dv) and bool(op) and sub[0].lineno < op[0].lineno
+    chk.ob('C14.R12', '_readZipFile/inner-link-opened-from-the-data-before-it', ok, where(mod, sub[0] if sub else lp),
+           'if not %s: %s = FileLike(%s, ...) before the archive is opened' % (lo, lo, dv))
+    rets = [x for x in walk_no_nested(rf) if isinstance(x, ast.Return)]
+    fin = [x for x in rets if not common._within(x, lp)]
+    ok = len(fin) == 1 and norm(fin[0].value) == '(%s, %s)' % (dv, lt)
+    chk.ob('C14.R12', '_readZipFile/returns-last-link\'s-data-and-time', ok, where(mod, fin[0] if fin else rf), '')
+    early = [x for x in rets if common._within(x, lp)]
+    from vt.cfg import enclosing_trys
+    ok = all(isinstance(x.value, ast.Tuple) and len(x.value.elts) == 2 and isinstance(x.value.elts[0], ast.Constant) and
+             not x.value.elts[0].value and _in_handler(x)
+             for x in early) and bool(enclosing_trys(rd[0], rf))
+    chk.ob('C14.R12', '_readZipFile/read-error-yields-no-data', ok, where(mod, early[0] if early else rf),
+           'the only early return is the empty result inside the handler of the member read')
+    # collisions: the renaming step must change the name
+    if True:
+        for w in wl:
+            v = w.body[0].value if w.body and isinstance(w.body[0], ast.AugAssign) else None
+            chk.ob('C14.R12', '_readZipDirectory/renaming-makes-progress', isinstance(v, ast.Constant) and
+                   isinstance(v.value, str) and len(v.value) > 0, where(mod, w),
+                   'the collision loop appends %s: with nothing appended it never ends' % (norm(v) if v is not None else '?'))
+    # __init__ / getData
+    o, init = zi.find_method('__init__')
+    pth = init.args.args[1].arg
+    pre = {}
+    for s_ in init.body:
+        if isinstance(s_, ast.Try):
+            break
+        if isinstance(s_, ast.Assign):
+            pre[norm(s_.targets[0])] = norm(s_.value)
+    chk.ob('C14.R12', '__init__/state-exists-before-the-archive-is-opened', pre.get('self._members') == '{}' and
+           pre.get('self._pendingError') == 'None', where(mod, init),
+           'getData reads self._members and self._pendingError also when the archive could not be opened: both must be '
+           'set ({} / None) before the try (found %s)' % sorted(pre.items()))
+    opens = [c for c in walk_no_nested(init) if isinstance(c, ast.Call) and dotted_name(c.func) == 'open']
+    ok_o = len(opens) == 1 and [norm(a_) for a_ in opens[0].args] == [pth, "'rb'"] and not opens[0].keywords
+    chk.ob('C14.R12', '__init__/archive-opened-binary', ok_o, where(mod, opens[0] if opens else init),
+           "open(%s, 'rb') expected" % pth)
+    o, gd = zi.find_method('getData')
+    nf = [x for x in walk_no_nested(gd) if isinstance(x, ast.Raise) and x.exc is not None and
+          'PySmiReaderFileNotFoundError' in norm(x.exc)]
+    for x in nf:
+        gs = _g(x, gd)
+        in_loop = any(isinstance(a_, (ast.For, ast.While)) for a_ in _ancestors(x, gd))
+        okx = not in_loop and gs in ([], [('not self._members', True)])
+        chk.ob('C14.R12', 'getData/not-found-only-for-an-empty-archive-or-at-the-end %s' % (gs and gs[0][0] or 'end'), okx,
+               where(mod, x), 'a not-found error under %s%s: members the archive holds are never returned' %
+               (gs, ' inside the variant loop' if in_loop else ''))
+    chk.floor('C14.R12', 18, 'statements of the ZIP directory / chain decode')
+
+
+def r13_filelike(chk):
+    """FileLike is what zipfile reads an inner archive through: positions and slices must be those of a file"""
+    model = chk.model
+    chk.doc('C14.R13', 'FileLike over a bytes buffer: __init__ keeps the buffer, its length and position 0; '
+                       'seek(pos, mode): mode 1 adds the current position, mode 2 the length, the result (not below 0) '
+                       'becomes the position, unconditionally; tell returns the position; read(n): the slice '
+                       '[position : length if n < 0 else min(position + n, length)] is returned and the position '
+                       'advanced to its end')
+    fl = model.cls(ZIP, 'FileLike')
+    mod = fl.mod
+
+    def m(name):
+        return fl.methods.get(name)
+    init = m('__init__')
+    bp = init.args.args[1].arg
+    st = dict((norm(s_.targets[0]), (norm(s_.value), _g(s_, init))) for s_ in walk_no_nested(init) if isinstance(s_, ast.Assign))
+    ok = st.get('self.buf') == (bp, []) and st.get('self.len') == ('len(%s)' % bp, []) and st.get('self.pos') == ('0', [])
+    chk.ob('C14.R13', 'FileLike.__init__/buffer-length-position', ok, where(mod, init), '%s' % sorted(st.items())[:4])
+    sk = m('seek')
+    pp, mp = sk.args.args[1].arg, sk.args.args[2].arg
+    dflt = sk.args.defaults and norm(sk.args.defaults[-1]) == '0'
+    adds = [(norm(s_.value), _g(s_, sk)) for s_ in walk_no_nested(sk) if isinstance(s_, ast.AugAssign) and
+            isinstance(s_.op, ast.Add) and norm(s_.target) == pp]
+    other = [s_ for s_ in walk_no_nested(sk) if (isinstance(s_, ast.Assign) and norm(s_.targets[0]) == pp) or
+             (isinstance(s_, ast.AugAssign) and norm(s_.target) == pp and not isinstance(s_.op, ast.Add))]
+    want = [('self.pos', [('%s == 1' % mp, True)]), ('self.len', [('%s == 1' % mp, False), ('%s == 2' % mp, True)])]
+    alt = [('self.pos', [('%s == 1' % mp, True)]), ('self.len', [('%s == 2' % mp, True)])]
+    chk.ob('C14.R13', 'FileLike.seek/whence', bool(dflt) and (adds == want or adds == alt) and not other, where(mod, sk),
+           'relative to the start by default, to the position for mode 1, to the end for mode 2 (found %s)' % adds)
+    ps = [(norm(s_.value), _g(s_, sk)) for s_ in walk_no_nested(sk) if isinstance(s_, ast.Assign) and
+          norm(s_.targets[0]) == 'self.pos']
+    chk.ob('C14.R13', 'FileLike.seek/position-set', ps in ([('max(0, %s)' % pp, [])], [('max(%s, 0)' % pp, [])]),
+           where(mod, sk), 'self.pos = max(0, %s), unconditionally (found %s)' % (pp, ps))
+    tl = m('tell')
+    rets = [x for x in walk_no_nested(tl) if isinstance(x, ast.Return)]
+    chk.ob('C14.R13', 'FileLike.tell', len(rets) == 1 and norm(rets[0].value) == 'self.pos', where(mod, tl), '')
+    rd = m('read')
+    npar = rd.args.args[1].arg
+    rets = [x for x in walk_no_nested(rd) if isinstance(x, ast.Return)]
+    ok = len(rets) == 1 and isinstance(rets[0].value, ast.Name) and rd.args.defaults and norm(rd.args.defaults[-1]) == '-1'
+    chk.ob('C14.R13', 'FileLike.read/one-result', bool(ok), where(mod, rd), '')
+    if ok:
+        rv = rets[0].value.id
+        ra = [s_ for s_ in walk_no_nested(rd) if isinstance(s_, ast.Assign) and norm(s_.targets[0]) == rv]
+        b = common.pmatch(ra[0].value, 'self.buf[self.pos:$e]') if len(ra) == 1 else None
+        chk.ob('C14.R13', 'FileLike.read/slice-from-the-position', b is not None and not _g(ra[0], rd), where(mod, rd),
+               '%s = self.buf[self.pos:<end>]' % rv)
+        if b:
+            e = b['e']
+            ends = sorted((norm(s_.value), tuple(_g(s_, rd))) for s_ in walk_no_nested(rd) if isinstance(s_, ast.Assign) and
+                          norm(s_.targets[0]) == e)
+            want = sorted([('self.len', (('%s < 0' % npar, True),)),
+                           ('min(self.pos + %s, self.len)' % npar, (('%s < 0' % npar, False),))])
+            want2 = sorted([('self.len', (('%s < 0' % npar, True),)),
+                            ('min(self.len, self.pos + %s)' % npar, (('%s < 0' % npar, False),))])
+            chk.ob('C14.R13', 'FileLike.read/end-of-the-slice', ends in (want, want2), where(mod, rd),
+                   'end = self.len if %s < 0 else min(self.pos + %s, self.len) (found %s)' % (npar, npar, ends))
+            adv = [s_ for s_ in walk_no_nested(rd) if isinstance(s_, ast.Assign) and norm(s_.targets[0]) == 'self.pos']
+            ok = len(adv) == 1 and norm(adv[0].value) == e and not _g(adv[0], rd) and adv[0].lineno > ra[0].lineno
+            chk.ob('C14.R13', 'FileLike.read/position-advanced-after-the-slice', ok, where(mod, adv[0] if adv else rd), '')
+
+
+
+RULES = [r1_file_reader, r2_variants, r3_index_first, r4_fallthrough, r5_recursion, r6_url_dispatch, r7_stateless_lookups, r8_result_plumbing, r9_argument_agreement, r10_guard_polarity, r11_wellformedness, r12_zip_directory_and_chain, r13_filelike]
